@@ -791,6 +791,8 @@ theorem RT_octetString (pos : Nat) (bytes : Bytes) (params : Params) (bits : Bit
           rw [e]
           exact RT_takeOctets _ bytes
         · rename_i hle2
+          split at h
+          · simp [Aper.panic] at h
           simp only [Except.ok.injEq] at h
           rw [← h]
           refine RT_bind hx ?_
@@ -830,7 +832,7 @@ theorem RT_octetString (pos : Nat) (bytes : Bytes) (params : Params) (bits : Bit
     · -- variable size (unfragmented)
       rename_i hsr
       split at h
-      · simp [err] at h
+      · split at h <;> simp [err, Aper.panic] at h
       · rename_i hge
         have hfl := fragLoop_small 8 sr lb.toNat (bytes.length / 16384 + 1) (pos + pre.length) (bytes.length - lb.toNat)
           (bytesToBits bytes) (by omega)
@@ -1026,6 +1028,8 @@ theorem RT_bitString (pos : Nat) (bytes : Bytes) (len : Nat) (params : Params) (
             rw [hclen]
             exact this
           · rename_i hle2
+            split at h
+            · simp [Aper.panic] at h
             simp only [Except.ok.injEq] at h
             rw [← h]
             refine RT_bind hx ?_
@@ -1044,7 +1048,7 @@ theorem RT_bitString (pos : Nat) (bytes : Bytes) (len : Nat) (params : Params) (
       · -- variable size (unfragmented)
         rename_i hsr
         split at h
-        · simp [err] at h
+        · split at h <;> simp [err, Aper.panic] at h
         · rename_i hge
           have hfl := fragLoop_small 1 sr' lb'.toNat (len / 16384 + 1) (pos + pre.length) (len - lb'.toNat)
             content (by omega)
